@@ -117,6 +117,30 @@ CHECKS = {
     ),
 }
 
+CHECKS["C19"] = (
+    "model_checking",
+    "exhaustive enumeration of all subsets of removable components on real skeleton engines against reference needs",
+    "For every skeleton engine (1-2 blocks x 1-2 outputs, each block using neither/and/or/both connectives, outputs "
+    "integral or weighted, rules concluding into one or both outputs) every subset of {conjunction, disjunction, "
+    "implication} per block and {aggregation, defuzzifier} per output is removed on the real engine; is_ready(errors) "
+    "is compared with the reference list of needed-and-missing components (each must be named) and a ready engine "
+    "must process 3 finite rows without raising.",
+    "Quick restricts the 2x2 skeletons to 4 usage pairs; General activation; whitespace-separated rule tokens.",
+    "5/C19",
+)
+CHECKS["C20"] = (
+    "model_checking",
+    "exhaustive enumeration of context nestings, exit paths and direct assignments on the real settings singleton with a snapshot-stack model",
+    "All nestings up to depth 4 of settings.context over subsets of the 7 settings (all 128 subsets at depths 1-2), "
+    "left normally or by ValueError/KeyboardInterrupt raised in the innermost body and caught after every number of "
+    "contexts, with one direct assignment at any level; after every enter, assignment and exit vars(settings) is "
+    "compared with the snapshot-stack model (identity for logger, factory manager, float type) and Op.str, "
+    "Op.is_close, scalar dtype, repr alias and the factory property are observed.",
+    "Depth 3-4 use subsets of size <= 1 (quick) / <= 2 (thorough); the singleton is reset and asserted pristine "
+    "between scenarios; thread safety is out of scope.",
+    "5/C20",
+)
+
 REASON_NOT_BUILT = "check not built yet in this phase (planned in DESIGN.md section 5); no claim is made"
 
 
